@@ -53,6 +53,47 @@ def check_geo_roundtrip(case):
                    observed={"grid": (hemi, zone, east, north), "lat": back[0], "lon": back[1], "arc_deg": d})
 
 
+def check_interleaved(case):
+    """A short series of conversions in both directions on changing ellipsoids / projections, each judged on its own against
+    the exact projection (no library call of the harness in between): a conversion must not depend on which conversions were
+    made before it."""
+    cv = repo.mod("geodepy.convert")
+    ran = 0
+    for k, op in enumerate(case["ops"]):
+        lat, lon = op["lat"], op["lon"]
+        fe, fn, k0, zw, cm1, kind = S.projection_params(op["prj"])
+        if op["dir"] == "fwd" or not op["zone"]:
+            hemi, zone, east, north, psf, conv = T.call_geo2grid(cv, op, lat, lon)
+            cm = T.cm_of(op["prj"], zone)
+            e0, n0, _, _ = T.oracle_forward(lat, lon, cm, op)
+            d = math.hypot(east - e0, north - n0)
+            if not d <= 2e-4:
+                raise Fail("geo2grid differs from the exact projection by more than 0.2 mm after other conversions were made",
+                           expected={"east": e0, "north": n0}, observed={"call": k, "east": east, "north": north, "dist_m": d,
+                                                                         "earlier": [o["dir"] for o in case["ops"][:k]]},
+                           bucket="interleaved forward")
+        else:
+            cm = T.cm_of(op["prj"], op["zone"])
+            e0, n0, _, _ = T.oracle_forward(lat, lon, cm, op)
+            e0, n0 = round(e0, 4), round(n0, 4)
+            try:
+                T.grid_range_or_discard(e0, n0)
+            except Discard:
+                continue
+            if not (-80.0 + 1e-6 <= lat <= 84.0 - 1e-6):
+                continue
+            back = T.call_grid2geo(cv, op, op["zone"], e0, n0, "south" if lat < 0 else "north")
+            d = _arc(lat, lon, back[0], back[1])
+            if not d <= 2e-9:
+                raise Fail("grid2geo of the exact projection of a position does not return it within 2e-9 degrees after other "
+                           "conversions were made", expected={"lat": lat, "lon": lon},
+                           observed={"call": k, "lat": back[0], "lon": back[1], "arc_deg": d,
+                                     "earlier": [o["dir"] for o in case["ops"][:k]]}, bucket="interleaved inverse")
+        ran += 1
+    if not ran:
+        raise Discard()
+
+
 def check_grid_roundtrip(case):
     cv = repo.mod("geodepy.convert")
     T.grid_range_or_discard(case["east"], case["north"])
@@ -228,6 +269,10 @@ _lat_outside = st.one_of(S.floats(84.0, 90.0).filter(lambda v: v > 84.0), S.floa
 # angle objects, defaults left out), with the latitude replaced by one outside the band
 _outside_band = st.builds(lambda c, lat: dict(c, lat=lat), T.geo_cases(), _lat_outside)
 
+_op = st.builds(lambda c, d: dict(c, dir=d), T.geo_cases(kinds=False, ell_strategy=st.sampled_from(["grs80", "ans", "intl24", "wgs84", "grs80", "ans"])),
+                st.sampled_from(["fwd", "inv", "inv"]))
+interleaved_cases = st.lists(_op, min_size=3, max_size=8).map(lambda ops: {"ops": ops})
+
 SUBCHECKS = [
     SubCheck("geo_grid_geo", check_geo_roundtrip, strategy=T.geo_cases(kinds=False), nontrivial=_nt_geo,
              classes=T.tm_classes, quick=3000, thorough=320000, shards_quick=3, shards_thorough=16,
@@ -235,6 +280,11 @@ SUBCHECKS = [
     SubCheck("grid_geo_grid", check_grid_roundtrip, strategy=T.grid_cases(), nontrivial=_nt_grid, classes=_cls_grid,
              quick=3000, thorough=320000, shards_quick=3, shards_thorough=16,
              rule="grid -> geographic -> grid (same zone) within 0.2 mm, and exact TM of the result = input within 0.2 mm"),
+    SubCheck("interleaved_calls", check_interleaved, strategy=interleaved_cases,
+             nontrivial=lambda c: len({(str(o["ell"]), o["dir"]) for o in c["ops"]}) >= 3,
+             classes=lambda c: ["ellipsoids:%d" % len({str(o["ell"]) for o in c["ops"]}), "calls:%d" % len(c["ops"])],
+             quick=600, thorough=40000, shards_quick=3, shards_thorough=12, fresh=(8, 64, 3),
+             rule="3..8 conversions in both directions on changing ellipsoids / projections, each judged against the exact projection"),
     SubCheck("hemisphere_mirror", check_mirror, strategy=T.grid_cases(prj_strategy=_fn1e7), nontrivial=_nt_grid, classes=_cls_grid,
              quick=2000, thorough=160000, shards_quick=2, shards_thorough=8,
              rule="grid2geo(z,E,N,'north') vs grid2geo(z,E,1e7-N,'south'): opposite latitude, same longitude (2e-11 deg)"),
